@@ -172,6 +172,36 @@ func modeC01(thorough bool) {
 		panic(err)
 	}
 	defer in.close()
+	// meanwhile, on an instance with a cache: malformed replies (undecodable, connection closed) to the
+	// *background* refresh of an entry in the last quarter of its life are an exchange that fails, like any
+	// other: the old answer keeps being served and the proxy goes on
+	bgDone := make(chan struct{})
+	go func() {
+		defer close(bgDone)
+		inb, err := newInst("c01-refresh", instOpts{listeners: []string{"udp", "tcp"}, upstreams: map[string]string{"u1": "udp", "u2": "tcp"},
+			sets:  map[string][]string{"s2": {"domain:z2.test"}},
+			rules: []ruleSpec{{Set: "s2", Forward: "u2"}, {Forward: "u1"}}, cacheMem: 1 << 20})
+		if err != nil {
+			panic(err)
+		}
+		defer inb.close()
+		names := []string{}
+		for i, bad := range []string{"r0t4d0fG", "r0t4d0fC", "r0t4d0fG", "r0t4d0fC"} {
+			zone := []string{"z1", "z2"}[i/2]
+			nm := fmt.Sprintf("%s.r0t4d0.%s.test.", uniq(), zone)
+			inb.ups[[]string{"u1", "u2"}[i/2]].setSeq(nm, "r0t4d0", bad, bad)
+			names = append(names, nm)
+			inb.send("udp", "", mkq(nm), 3*time.Second, nil)
+		}
+		time.Sleep(3250 * time.Millisecond)
+		for k := 0; k < 3; k++ {
+			for _, nm := range names {
+				inb.send([]string{"udp", "tcp"}[k%2], "", mkq(nm), 3*time.Second, nil)
+			}
+			time.Sleep(150 * time.Millisecond)
+		}
+	}()
+	defer func() { <-bgDone }()
 	rng := rand.New(rand.NewSource(seed))
 	valid := mkq("valid.r0t60d0.z1.test.").wire()
 	var payloads [][]byte
